@@ -107,6 +107,32 @@ pub mod sched {
             }
         }
     }
+
+    /// A stream that passes through a scheduling point before each item.
+    pub struct YieldStream<S> {
+        inner: S,
+        site: &'static str,
+        yielded: bool,
+    }
+    pub fn yielding<S>(inner: S, site: &'static str) -> YieldStream<S> {
+        YieldStream {
+            inner,
+            site,
+            yielded: false,
+        }
+    }
+    impl<S: futures::Stream + Unpin> futures::Stream for YieldStream<S> {
+        type Item = S::Item;
+        fn poll_next(mut self: Pin<&mut Self>, cx: &mut Context<'_>) -> Poll<Option<S::Item>> {
+            if !self.yielded && flip(self.site) {
+                self.yielded = true;
+                cx.waker().wake_by_ref();
+                return Poll::Pending;
+            }
+            self.yielded = false;
+            Pin::new(&mut self.inner).poll_next(cx)
+        }
+    }
 }
 
 /// Armed I/O fault sites: `fault(site)` fails with the armed error on the k-th
